@@ -10,6 +10,7 @@ import (
 	"runtime"
 	"sync"
 	"sync/atomic"
+	"time"
 
 	"github.com/bool64/cache"
 )
@@ -24,7 +25,98 @@ import (
 // is the statement of C18 itself, evaluated on the real backend.
 func init() { engines["conserve"] = runConserve }
 
+// Profile c11all (C11 under concurrency): an UnlimitedTTL cache receives per-call TTLs (entries born long expired) while other
+// goroutines call DeleteAll; once everybody is done, one cleanup cycle must remove every entry that is expired longer than
+// DeleteExpiredAfter - whatever DeleteAll interleaved with the writes, the janitor must still know that expirations were set.
+func runConserveC11(o Opts) *Result {
+	res := &Result{Rule: "per scenario: an UnlimitedTTL backend (DeleteExpiredAfter 1ms), 2-4 goroutines writing 10-40 distinct keys each with a ttl of -1h " +
+		"(plus a few never-expiring ones), 1-2 goroutines calling DeleteAll repeatedly; after quiescence one cleanup cycle: no entry expired longer than " +
+		"DeleteExpiredAfter may remain, never-expiring ones written after the last DeleteAll must remain; all three backends; " +
+		"non-trivial = a scenario in which a DeleteAll completed while writers were running; distinct = distinct (backend, shape)"}
+	ctx := context.Background()
+	uniq := map[string]bool{}
+	for idx := 0; idx < o.N; idx++ {
+		if timeUp() {
+			break
+		}
+		if o.Only >= 0 && idx != o.Only {
+			continue
+		}
+		rng := rand.New(rand.NewSource(o.Seed*32452843 + int64(idx)*13))
+		kind := kinds[idx%3]
+		keys := NewKeyTable()
+		b := NewBackend(BCfg{Kind: kind, TTL: cache.UnlimitedTTL, Jitter: Rat{-1, 1, -1}, DEA: time.Millisecond, Name: "cv11"}, keys)
+		nW, nK, nDA := 2+rng.Intn(3), 10+rng.Intn(31), 1+rng.Intn(2)
+		rounds := 2 + rng.Intn(6)
+		res.Evaluations++
+		res.count("backend:" + kind)
+		var wg sync.WaitGroup
+		var writersLeft, daWhileWriting int64 = int64(nW), 0
+		for g := 0; g < nW; g++ {
+			g := g
+			wg.Add(1)
+			go func() {
+				defer wg.Done()
+				defer atomic.AddInt64(&writersLeft, -1)
+				for i := 0; i < nK; i++ {
+					c := cache.WithTTL(ctx, -time.Hour, false)
+					if i%9 == 8 {
+						c = ctx // never expires
+					}
+					_ = b.Write(c, []byte(fmt.Sprintf("c11-%d-%d-%d", idx, g, i)), i+1)
+					if i%5 == 0 {
+						runtime.Gosched()
+					}
+				}
+			}()
+		}
+		for a := 0; a < nDA; a++ {
+			wg.Add(1)
+			go func() {
+				defer wg.Done()
+				for r := 0; r < rounds; r++ {
+					b.DeleteAll(ctx)
+					if atomic.LoadInt64(&writersLeft) > 0 {
+						atomic.AddInt64(&daWhileWriting, 1)
+					}
+					runtime.Gosched()
+				}
+			}()
+		}
+		wg.Wait()
+		time.Sleep(3 * time.Millisecond)
+		before := b.Walk()
+		t0 := now()
+		b.Cleanup()
+		res.TracesValidated++
+		if daWhileWriting > 0 {
+			res.DistinctNontrivial++
+		}
+		uniq[fmt.Sprintf("%s/%d/%d/%d", kind, nW, nK, nDA)] = true
+		left := 0
+		for _, e := range b.Walk() {
+			if e.E != 0 && e.E < t0-int64(time.Millisecond) {
+				left++
+			}
+		}
+		res.countN("long-expired-entries-met-by-the-cycle", len(before))
+		if left > 0 {
+			res.Violations = append(res.Violations, Violation{Property: "C11", Kind: "monitor", Sig: "conserve:kept-long-expired:" + kind,
+				Detail: fmt.Sprintf("%s, UnlimitedTTL with per-call ttls: after concurrent DeleteAll calls and writes had finished, a cleanup cycle left %d of %d entries that are expired for an hour (DeleteExpiredAfter = 1ms)", kind, left, len(before)),
+				Replay: map[string]interface{}{"engine": "conserve", "profile": "c11all", "seed": o.Seed, "index": idx, "backend": kind, "writers": nW, "keysPerWriter": nK, "deleteAllGoroutines": nDA, "rounds": rounds,
+					"rerun": fmt.Sprintf("harness conserve -profile c11all -seed %d -only %d (the interleaving is up to the Go scheduler: repeat)", o.Seed, idx)}})
+		}
+		if res.full() {
+			break
+		}
+	}
+	return res
+}
+
 func runConserve(o Opts) *Result {
+	if o.Profile == "c11all" {
+		return runConserveC11(o)
+	}
 	res := &Result{Rule: "per scenario: 2-4 writer goroutines write 20-80 distinct keys once each (spread over the shards), 0-2 goroutines Delete random keys of that universe, " +
 		"1-2 goroutines call DeleteAll repeatedly; at quiescence cache_delete must equal keys written minus Len, cache_write the keys written; all three backends; " +
 		"non-trivial = a scenario in which DeleteAll and Delete both removed entries while writers were still running; distinct = distinct (backend, shape) configurations"}
